@@ -131,14 +131,29 @@ int64_t cmb_resourceguard_wait(struct cmb_resourceguard *rgp,
                                cmb_resourceguard_demand_func *demand,
                                const void *ctx)
 {
+    return cmb_resourceguard_wait_since(rgp, demand, ctx, cmb_time());
+}
+
+/*
+ * cmb_resourceguard_wait_since - As cmb_resourceguard_wait, for a process that
+ * has been waiting since an earlier time and has to queue up again within the
+ * same call (it was woken, but someone else got there first, or it only got a
+ * part of what it needs). It keeps the place its waiting time entitles it to.
+ */
+int64_t cmb_resourceguard_wait_since(struct cmb_resourceguard *rgp,
+                                     cmb_resourceguard_demand_func *demand,
+                                     const void *ctx,
+                                     const double since)
+{
     cmb_assert_release(rgp != NULL);
     cmb_assert_release(demand != NULL);
+    cmb_assert_release(since <= cmb_time());
 
     /* cmb_process_current returns NULL if called from the main process */
     struct cmb_process *pp = cmb_process_current();
     cmb_assert_release(pp != NULL);
 
-    const double entry_time = cmb_time();
+    const double entry_time = since;
     const int64_t priority = cmb_process_priority(pp);
     const uint64_t key = cmi_hashheap_enqueue((struct cmi_hashheap *)rgp,
                                               (void *)pp,
